@@ -5,7 +5,7 @@ From Coq Require Import ExtrOcamlBasic.
 From Sakura.Model Require Import Base Cursor Length Event Writer.
 From Sakura.Spec Require Import LenSpec SmfSpec TrackSpec.
 Extraction Language OCaml.
-Extraction "../ocaml/sakura_model.ml"
+Extraction "../ocaml/core_model.ml"
   Cursor.get_int Cursor.get_note_length
   Length.calc_length
   Writer.generate Writer.generate_track Writer.normalize_and_sort Writer.push_delta Event.ev_sysex
